@@ -62,7 +62,28 @@ def run(ctx):
     fi = prog.method("IpGenerator", "fetch_ip")
     fc = K.calls_to(fi, fn.key)
     okk = len(fc) == 1 and dep.tree_str(dep.expr_tree(fi, F.call_args(fc[0][1])[1], 12)) == "from_bitcount(32)"
-    (ctx.ok if okk else ctx.bad)("G-BLOCK", "G-BLOCK:fetch_ip", fi.span, "fetch_ip = fetch_net(/32).map(id)" if okk else "fetch_ip is no longer fetch_net with a /32 mask")
+    why = "fetch_ip = fetch_net(/32).map(id)"
+    if not okk:
+        # an own implementation must keep what fetch_net guarantees: the address handed out was tested to lie inside
+        # a (non-empty) free range, and it is blocked before it is returned
+        fg = cfg(fi)
+        somes_i = [bb for bb, st in K.aggregates(fi, "core::option::Option", "Some") if st[1] == [0, []]]
+        tests = []
+        for s_ in range(len(fi.blocks)):
+            if fi.is_cleanup(s_) or fi.term(s_)[0] != "switch":
+                continue
+            c = dep.switch_condition(fi, s_)
+            if c and c["kind"] == "call" and (F.callee_key(c["term"]) or "").rsplit("::", 1)[-1] in ("contains", "is_empty"):
+                tr, fa = dep.bool_branches(fi, s_)
+                tests.append(tr if (F.callee_key(c["term"]) or "").endswith("contains") else fa)
+        blocks_i = [bb for bb, t in K.calls(fi) if (F.callee_key(t) or "").rsplit("::", 1)[-1] in ("block_subnet", "block_range")]
+        inside = somes_i and all(any(fg.dominates(tb, sb) for tb in tests) for sb in somes_i)
+        blocked = somes_i and all(any(fg.dominates(bb_, sb) for bb_ in blocks_i) for sb in somes_i)
+        okk = bool(inside and blocked)
+        why = "fetch_ip tests that the address lies in a free range and blocks it before returning it" if okk else (
+            "fetch_ip hands out the start of a free range without testing that the range actually contains it: an empty range (start > end, e.g. the host range of a /31 or /32 from new_sub_no_ends) yields an address outside the pool that may be held elsewhere"
+            if not inside else "fetch_ip returns an address without blocking it first")
+    (ctx.ok if okk else ctx.bad)("G-BLOCK", "G-BLOCK:fetch_ip", fi.span, why)
     bs = prog.method("IpGenerator", "block_subnet")
     br = K.calls_to(bs, "ip_generator::{impl#0}::block_range")
     okk = len(br) == 1 and dep.has_param(dep.arg_origins(bs, br[0][0], 1), "network")
